@@ -58,10 +58,29 @@ class FakeSession:
         pass
 
 
+_SESSION = []
+
+
 def make_file(blob, cs, keep):
+    """a new file object for THE url of the in-memory server, which now
+    serves `blob`: as in a process that opens many resources, the session
+    of the host lives as long as the process (dclab's session cache) and
+    what a URL serves may have been replaced since it was last opened"""
     from dclab import http_utils
-    url = "http://verif.invalid/blob%d" % len(blob)
-    http_utils.session_cache.sessions["verif.invalid"] = FakeSession(blob)
+    if not _SESSION:
+        base = getattr(http_utils, "ResoluteRequestsSession", object)
+
+        class Session(FakeSession, base):
+            def __init__(self, blob):
+                if base is not object:
+                    base.__init__(self)
+                FakeSession.__init__(self, blob)
+        _SESSION.append(Session(blob))
+    ses = _SESSION[0]
+    ses.blob = blob
+    ses.requests = []
+    url = "http://verif.invalid/resource"
+    http_utils.session_cache.sessions["verif.invalid"] = ses
     return http_utils.HTTPFile(url, chunk_size=cs, keep_chunks=keep)
 
 
